@@ -11,11 +11,14 @@
      king_sq -> pop_unchecked               C07_king_present
      check_mask -> pop_unchecked            C07_single_checker
      CastleRights::to_index                 C07_rights_index   (after any make-move, unconditionally < 16)
-     u16 clocks                             C07_clocks_saturate *)
+     u16 clocks                             C07_clocks_saturate
+   The premises of the capacity and king-presence lemmas are PROVED for every reachable board (standard / parsed / built /
+   reached by any number of accepted moves): C07_capacity_reachable, C07_king_present_reachable (kings are never captured,
+   the number of men never grows: proofs/Reachable.v, ReachableMore.v). *)
 From Coq Require Import NArith List Bool.
 From Chess Require Import base.Bits base.Types base.BitBoard geom.Geometry geom.Lookup model.Board model.MoveGen model.Fen model.Book
   gen.T_rook_moves gen.T_bishop_moves gen.T_book spec.IterSpec
-  proofs.MagicSweep proofs.BookFacts proofs.FenFacts proofs.IterFacts model.Apply proofs.SiteFacts.
+  proofs.MagicSweep proofs.BookFacts proofs.FenFacts proofs.IterFacts model.Apply proofs.SiteFacts proofs.Reachable proofs.ReachableMore.
 Import ListNotations.
 Local Open Scope N_scope.
 
@@ -70,3 +73,12 @@ Print Assumptions C07_clocks_saturate.
 Theorem C07_iterator_pop_site : forall g e, nth_error (g_moves g) (cursor g) = Some e -> bb_and (e_moves e) (g_mask g) <> 0.
 Proof. exact next_site_nonempty. Qed.
 Print Assumptions C07_iterator_pop_site.
+
+Theorem C07_capacity_reachable : forall b mask, Reachable b -> (length (collect_moves b mask) <= 18)%nat.
+Proof. exact capacity_reachable. Qed.
+Print Assumptions C07_capacity_reachable.
+
+Theorem C07_king_present_reachable : forall b c, Reachable b ->
+  king_sq b c < 64 /\ mem (colors b c) (king_sq b c) = true /\ mem (b_king b) (king_sq b c) = true.
+Proof. exact king_present_reachable. Qed.
+Print Assumptions C07_king_present_reachable.
